@@ -38,6 +38,7 @@ theorem extT5_of_extT4 (kinds : List Kind) (e : Ext) (h : ExtT4 kinds e) : ExtT5
       · exact Or.inl h
       · exact Or.inr (Or.inl h)
     | sames _ => exact h.elim
+    | mixed _ => exact h.elim
     | many vs => exact h
 
 theorem prog_out_j (k : Nat) (p : Pkt) (c : Pid) (v : Val) (hpc : p.id < c) :
@@ -60,13 +61,46 @@ theorem extT6_of_extT5 (kinds : List Kind) (e : Ext) (h : ExtT5 kinds e) : ExtT6
     cases r with
     | same => exact h.elim
     | sames _ => exact h.elim
+    | mixed _ => exact h.elim
     | out v => exact h
     | err v => exact h
     | many vs => exact h
     | drop => exact h
 
+/-- the schedules of class T7 = T6 plus: an action of ANY node kind – also one-to-one – may return nothing (`drop`,
+`sames 0`): the request is answered with itself (one-to-one: since the fix of `OneToOneNode.forward`) -/
+def ExtT7 (kinds : List Kind) : Ext → Prop
+  | .release _ .drop => True
+  | .release n (.sames k) => k ≤ 1 ∨ kinds[n]? = none ∨ ∃ m, kinds[n]? = some (.oneToMany m)
+  | .release n (.mixed _) => kinds[n]? = none ∨ ∃ m, kinds[n]? = some (.oneToMany m)
+  | e => ExtT6 kinds e
+
+theorem extT7_of_extT6 (kinds : List Kind) (e : Ext) (h : ExtT6 kinds e) : ExtT7 kinds e := by
+  cases e with
+  | send _ => exact h
+  | sinkAnswer _ _ => exact h
+  | release n r =>
+    cases r with
+    | same => exact h
+    | sames k =>
+      rcases h with h | ⟨h, _⟩
+      · exact Or.inl (by omega)
+      · exact Or.inl (by omega)
+    | mixed _ => exact h.elim
+    | out v => exact h
+    | err v => exact h
+    | many vs => exact h
+    | drop => trivial
+
+theorem progE_nil (kind : Kind) (p : Pkt) (c : Pid) : ProgE kind p (.outs []) c c := by
+  cases kind with
+  | oneToOne => exact ⟨by simp [program], by simp [introS, cellsOf], by simp [introS, cellsOf], Nat.le_refl _⟩
+  | oneToMany _ =>
+    exact ⟨by simp [program, validOuts], by simp [introS, cellsOf], by simp [introS, cellsOf], Nat.le_refl _⟩
+  | manyToOne _ => exact ⟨by simp [program], by simp [introS, cellsOf], by simp [introS, cellsOf], Nat.le_refl _⟩
+
 theorem HIe_release (kinds : List Kind) (links : List (Nat × List Tgt)) (hwf : GraphWF5 kinds links) (g g' : G) (n : Nat)
-    (r : Flow.Rel) (hr : ExtT6 kinds (.release n r)) (h : HIe kinds links g) (hs : release g n r = some g') :
+    (r : Flow.Rel) (hr : ExtT7 kinds (.release n r)) (h : HIe kinds links g) (hs : release g n r = some g') :
     HIe kinds links g' := by
   obtain ⟨aa, h⟩ := h
   have h0 : HI kinds links aa D0 (clearObs g) := HI_congr kinds links aa D0 g _ h rfl rfl rfl rfl rfl rfl rfl rfl rfl
@@ -99,37 +133,52 @@ theorem HIe_release (kinds : List Kind) (links : List (Nat × List Tgt)) (hwf : 
         · exact HIe_relTail_echo kinds links hwf (clearObs g) g' ⟨aa, h0⟩ n nd i p grp inbox hn hg o nx hpo hs'
       cases r with
       | same =>
-        apply tailS _ hs
-        refine ⟨by simp [introS, cellsOf], ?_⟩
+        -- the node hands its tracer a copy of the in packet: as `out` with the same payload
+        apply tail _ _ hs
         cases hkd : nd.kind with
-        | oneToOne => exact ⟨_, rfl⟩
-        | manyToOne _ => exact ⟨_, rfl⟩
-        | oneToMany m => simp only [program]; split <;> exact ⟨_, rfl⟩
+        | oneToOne => exact Or.inl (prog_out .oneToOne p _ p.pay hplt (Or.inl rfl))
+        | manyToOne m => exact Or.inl (prog_out_j m p _ p.pay hplt)
+        | oneToMany m => exact prog_many4 m p (clearObs g).next [some p.pay] hplt
       | sames k =>
-        simp only [ExtT6] at hr
-        rcases hr with e | ⟨e, hr⟩
-        · -- `[inPck]`
-          subst e
-          apply tailS _ hs
-          refine ⟨by simp [introS, cellsOf], ?_⟩
-          cases hkd : nd.kind with
-          | oneToOne => exact ⟨_, rfl⟩
-          | manyToOne _ => exact ⟨_, rfl⟩
-          | oneToMany m => simp only [program]; split <;> exact ⟨_, rfl⟩
-        · -- `[]`: nothing returned (as `drop`)
-          subst e
-          rw [hk] at hr
+        -- copies of the in packet on the out ports 0..k-1: as `many` with the same payload
+        apply tail _ _ hs
+        cases hkd : nd.kind with
+        | oneToMany m => exact prog_many4 m p (clearObs g).next (List.replicate k (some p.pay)) hplt
+        | oneToOne =>
+          simp only [ExtT7] at hr
+          rw [hk, hkd] at hr
+          rcases hr with hr | hr | ⟨m, hr⟩
+          · cases k with
+            | zero => exact Or.inr (progE_nil .oneToOne p _)
+            | succ k =>
+              have : k = 0 := by omega
+              subst this
+              exact Or.inl (prog_out .oneToOne p _ p.pay hplt (Or.inl rfl))
+          · cases hr
+          · cases hr
+        | manyToOne m' =>
+          simp only [ExtT7] at hr
+          rw [hk, hkd] at hr
+          rcases hr with hr | hr | ⟨m, hr⟩
+          · cases k with
+            | zero => exact Or.inr (progE_nil (.manyToOne m') p _)
+            | succ k =>
+              have : k = 0 := by omega
+              subst this
+              exact Or.inl (prog_out_j m' p _ p.pay hplt)
+          · cases hr
+          · cases hr
+      | mixed vs =>
+        simp only [ExtT7] at hr
+        rw [hk] at hr
+        rcases hr with e | ⟨m, e⟩
+        · cases e
+        · simp only [Option.some.injEq] at e
           apply tail _ _ hs
-          right
-          rcases hr with e | ⟨m, e⟩ | ⟨m, e⟩
-          · cases e
-          · simp only [Option.some.injEq] at e; rw [e]
-            exact ⟨by simp [program, validOuts], by simp [introS, cellsOf], by simp [introS, cellsOf], Nat.le_refl _⟩
-          · simp only [Option.some.injEq] at e; rw [e]
-            exact ⟨by simp [program], by simp [introS, cellsOf], by simp [introS, cellsOf], Nat.le_refl _⟩
+          rw [e]; exact prog_many4 m p (clearObs g).next _ hplt
       | err v => exact tail _ _ hs (Or.inl (prog_err nd.kind p _ v hplt))
       | out v =>
-        simp only [ExtT6, ExtT5] at hr
+        simp only [ExtT7, ExtT6, ExtT5] at hr
         rw [hk] at hr
         simp only [Option.some.injEq] at hr
         apply tail _ _ hs
@@ -140,29 +189,17 @@ theorem HIe_release (kinds : List Kind) (links : List (Nat × List Tgt)) (hwf : 
         · exact prog_out nd.kind p _ v hplt (Or.inr ⟨k, e⟩)
         · rw [e]; exact prog_out_j k p _ v hplt
       | many vs =>
-        simp only [ExtT6, ExtT5] at hr
+        simp only [ExtT7, ExtT6, ExtT5] at hr
         rw [hk] at hr
         rcases hr with e | ⟨k, e⟩
         · cases e
         · simp only [Option.some.injEq] at e
           apply tail _ _ hs
           rw [e]; exact prog_many4 k p (clearObs g).next vs hplt
-      | drop =>
-        simp only [ExtT6, ExtT5] at hr
-        rw [hk] at hr
-        apply tail _ _ hs
-        right
-        rcases hr with e | ⟨k, e⟩ | ⟨k, e⟩
-        · cases e
-        · simp only [Option.some.injEq] at e
-          rw [e]
-          exact ⟨by simp [program, validOuts], by simp [introS, cellsOf], by simp [introS, cellsOf], Nat.le_refl _⟩
-        · simp only [Option.some.injEq] at e
-          rw [e]
-          exact ⟨by simp [program], by simp [introS, cellsOf], by simp [introS, cellsOf], Nat.le_refl _⟩
+      | drop => exact tail _ _ hs (Or.inr (progE_nil nd.kind p _))
 
 theorem HIe_ext (kinds : List Kind) (links : List (Nat × List Tgt)) (hwf : GraphWF5 kinds links) (g : G) (e : Ext)
-    (he : ExtT6 kinds e) (h : HIe kinds links g) : HIe kinds links (ext g e) := by
+    (he : ExtT7 kinds e) (h : HIe kinds links g) : HIe kinds links (ext g e) := by
   cases e with
   | send v => exact HIe_send kinds links hwf g v h
   | sinkAnswer k a =>
@@ -177,7 +214,7 @@ theorem HIe_ext (kinds : List Kind) (links : List (Nat × List Tgt)) (hwf : Grap
     | some g' => exact HIe_release kinds links hwf g g' n r he h hs
 
 theorem HIe_runExt (kinds : List Kind) (links : List (Nat × List Tgt)) (hwf : GraphWF5 kinds links) (es : List Ext) :
-    ∀ (g : G), (∀ e ∈ es, ExtT6 kinds e) → HIe kinds links g → HIe kinds links (runExt g es) := by
+    ∀ (g : G), (∀ e ∈ es, ExtT7 kinds e) → HIe kinds links g → HIe kinds links (runExt g es) := by
   induction es with
   | nil => intro g _ h; exact h
   | cons e es ih =>
